@@ -30,16 +30,18 @@ def args_from_input(input: ArgsInput) -> Args:
         varnames[:pos_or_kw_count],
         varnames[pos_or_kw_count:],
     )
+    # In co_varnames the keyword only names come before the *args name
+    # https://github.com/python/cpython/blob/3.10/Lib/inspect.py#L2236-L2260
+    keyword_only, varnames = (
+        varnames[:kwonlyargcount],
+        varnames[kwonlyargcount:],
+    )
     if "VARARGS" in flags_data:
         var_positional, varnames = varnames[0], varnames[1:]
         flags_data.remove("VARARGS")
     else:
         var_positional = None
 
-    keyword_only, varnames = (
-        varnames[:kwonlyargcount],
-        varnames[kwonlyargcount:],
-    )
     if "VARKEYWORDS" in flags_data:
         var_keyword, varnames = varnames[0], varnames[1:]
         flags_data.remove("VARKEYWORDS")
@@ -64,8 +66,22 @@ def args_to_input(args: Args, flags_data: FlagsData) -> ArgsInput:
         argcount=len(args.positional_only) + len(args.positional_or_keyword),
         posonlyargcount=len(args.positional_only),
         kwonlyargcount=len(args.keyword_only),
-        varnames=tuple(args.parameters.keys()),
+        varnames=args_to_varnames(args),
         flags_data=flags_data,
+    )
+
+
+def args_to_varnames(args: Args) -> Tuple[str, ...]:
+    """
+    The names of the args, in the order they are stored at the start of co_varnames:
+    positional, keyword only, *args, **kwargs.
+    """
+    return (
+        *args.positional_only,
+        *args.positional_or_keyword,
+        *args.keyword_only,
+        *((args.var_positional,) if args.var_positional else ()),
+        *((args.var_keyword,) if args.var_keyword else ()),
     )
 
 
